@@ -68,6 +68,8 @@ type Op struct {
 	Tasks []Task `json:"tasks,omitempty"`
 	// race: decisions "fail"/"lostack" applied to the n-th released Txn (0 = none)
 	FailAt int `json:"fail_at,omitempty"`
+	// campaign: a request of this count arrives between the successful campaign and Initialize
+	Mid uint32 `json:"mid,omitempty"`
 }
 
 // Case is a generated history.
@@ -683,9 +685,32 @@ func (w *world) step(step int, op Op, m *mem) {
 		w.holder = m.idx
 		m.leader = true
 		m.expire = w.base + w.c.Cfg.TTL*int64(time.Second)
+		if op.Mid > 0 {
+			// a request that reaches the member after its campaign succeeded and before the allocator is
+			// initialized (the Tso handler is not gated on anything else): refused, or granted in order
+			if err := w.gen(m, op.Mid, true); err != nil {
+				w.info.Class("gen-before-init-refused")
+			} else {
+				w.info.Class("gen-before-init-granted")
+			}
+			if len(w.viol) > 0 {
+				return
+			}
+		}
+		if strings.HasPrefix(op.Fail, "init-") {
+			w.mu.Lock()
+			w.failNext[m.idx] = strings.TrimPrefix(op.Fail, "init-")
+			w.mu.Unlock()
+		}
 		if err := m.alloc.Initialize(0); err != nil {
+			// as server.campaignLeader does: it returns BEFORE it registers ResetAllocatorGroup, so a failed
+			// initialization only gives the leadership up and leaves the allocator's memory as it is
 			w.info.Class("init-failed")
-			w.stepDown(m)
+			m.mb.ResetLeader()
+			if w.holder == m.idx {
+				w.holder = -1
+			}
+			m.leader, m.inited = false, false
 			return
 		}
 		m.inited = true
